@@ -47,13 +47,25 @@ pub fn log_read_all(
     fs: Arc<dyn FileSystem>,
     path: &Path,
 ) -> Result<(Vec<Vec<u8>>, Option<String>), String> {
+    log_read_all_with_status(fs, path).map(|(records, error, _)| (records, error))
+}
+
+/// Like [`log_read_all`], also reporting `LogReader::was_read_cleanly_to_end` (the condition
+/// under which recovery re-opens the log for appending).
+pub fn log_read_all_with_status(
+    fs: Arc<dyn FileSystem>,
+    path: &Path,
+) -> Result<(Vec<Vec<u8>>, Option<String>, bool), String> {
     let mut reader = LogReader::new(fs, path, 0).map_err(|e| e.to_string())?;
     let mut records = vec![];
     loop {
         match reader.read_record() {
-            Ok((_, true)) => return Ok((records, None)),
+            Ok((_, true)) => {
+                let clean = reader.was_read_cleanly_to_end().unwrap_or(false);
+                return Ok((records, None, clean));
+            }
             Ok((data, false)) => records.push(data),
-            Err(e) => return Ok((records, Some(e.to_string()))),
+            Err(e) => return Ok((records, Some(e.to_string()), false)),
         }
     }
 }
